@@ -1627,6 +1627,23 @@ def _corpus():
                  ("default-uint32-max1", "optional uint32 e = 4 [default = 4294967296];"), ("default-bool-int", "optional bool e = 4 [default = 1];"),
                  ("default-string-ident", "optional string e = 4 [default = abc];"), ("default-twice", "optional int32 e = 4 [default = 1, default = 2];")]:
         add(a, P2 + "message M { %s } enum E { A = 0; B = 1; }" % t)
+    for depth in (30, 31, 32, 33):
+        add("nesting-%d" % depth, P2 + "".join("message M%d { " % i for i in range(depth)) + "}" * depth)
+    add("nesting-group-31", P2 + "".join("message M%d { " % i for i in range(30)) + "optional group G = 1 { }" + "}" * 30)
+    add("nesting-group-32", P2 + "".join("message M%d { " % i for i in range(31)) + "optional group G = 1 { }" + "}" * 31)
+    add("nesting-map-32", P2 + "".join("message M%d { " % i for i in range(31)) + "map<int32,int32> m = 1;" + "}" * 31)
+    add("extend-group", P2 + "message M { extensions 5 to 9; } extend M { optional group Grp = 5 { optional int32 a = 1; } optional int32 x = 6; }")
+    add("extend-group-nested", P2 + "message M { extensions 5 to 9; message N { extend M { repeated group Grp = 5 { } } optional Grp g = 1; } }")
+    add("map-json-name", P3 + 'message M { map<string,int32> foo_bar = 1 [json_name="x"]; int32 x = 2; }')
+    add("rpc-dup", P2 + "service S { rpc R(M) returns (M); rpc R(M) returns (M); } message M {}")
+    add("service-msg-dup", P2 + "service S { } message S {}")
+    add("oneof-field-json", P3 + "message M { oneof o { int32 foo_bar = 1; int32 fooBar = 2; } }")
+    add("enum-neg-hex", P2 + "enum E { A = -0x1; B = 0x7fffffff; C = -0x80000000; }")
+    add("ext-json-conflict", P3 + "message M { int32 a_b = 1; }")
+    add("enum-json-prefix", P3 + "enum FooBar { FOO_BAR_BAZ = 0; BAZ = 1; }")
+    add("enum-json-prefix-underscores", P3 + "enum Foo_Bar { FOOBAR_X = 0; FOO_BAR__X = 1; }")
+    add("enum-json-prefix-all", P3 + "enum Foo { FOO = 0; FOO_ = 1; }")
+    add("enum-json-case", P3 + "enum E { ab_c = 0; AB_C = 1; }")
     add("p3-closed-enum", P3 + 'import "x.proto"; message M { E e = 1; }', {"x.proto": P2 + "enum E { A = 0; }"})
     add("p3-closed-enum-optional", P3 + 'import "x.proto"; message M { optional E e = 1; }', {"x.proto": P2 + "enum E { A = 0; }"})
     add("p3-closed-enum-repeated", P3 + 'import "x.proto"; message M { repeated E e = 1; }', {"x.proto": P2 + "enum E { A = 0; }"})
